@@ -244,6 +244,55 @@ func streamC07(env *runEnv) {
 		}
 		caseN++
 	}
+	// websocket tunnels do not pair up: a second websocket request that carries the connection id of a
+	// websocket tunnel that is still open is a tunnel of its own (the identifier matters for the legacy
+	// transport's pairing only); afterwards the first one still works
+	{
+		bks := []*tagBackend{newTagBackend(nil), newTagBackend(nil)}
+		id := fmt.Sprintf("{c07-same-id-%d}", env.seed)
+		verdict := "own-bytes-only"
+		setup := func(c tclient, i int) bool {
+			host, port := splitHostPort(bks[i].addr)
+			for _, p := range [][]byte{
+				packet(ptHandshake, handshakeBody(1, 0, 0, 2)),
+				packet(ptTunnelCreate, tunnelCreateBody(0, fmt.Sprintf("ok|same%d|%s", i, bks[i].addr), true)),
+				packet(ptTunnelAuth, tunnelAuthBody("pc")),
+				packet(ptChannelCreate, channelCreateBody(host, port)),
+			} {
+				c.send(p)
+				m, err := c.recv(3 * time.Second)
+				if err != nil || len(m) < 12 {
+					return false
+				}
+			}
+			return true
+		}
+		a, errA := openTunnel(srv.inst, tunnelScript{transport: "ws", id: id})
+		if errA != nil || !setup(a, 0) {
+			verdict = "first-tunnel-setup-failed"
+		} else {
+			b, errB := openTunnel(srv.inst, tunnelScript{transport: "ws", id: id})
+			if errB != nil || !setup(b, 1) {
+				verdict = "second-tunnel-setup-failed"
+			} else {
+				a.send(packet(ptData, dataBody([]byte("<from-client-A>"))))
+				b.send(packet(ptData, dataBody([]byte("<from-client-B>"))))
+				time.Sleep(200 * time.Millisecond)
+				_, gotA, _ := bks[0].snapshot()
+				_, gotB, _ := bks[1].snapshot()
+				if string(gotA) != "<from-client-A>" || string(gotB) != "<from-client-B>" {
+					verdict = fmt.Sprintf("host-A-got-%q-host-B-got-%q", gotA, gotB)
+				}
+				b.close()
+			}
+			a.close()
+		}
+		srv.takeLog(id)
+		env.count("c07.same-id-ws")
+		env.emit("isolation", "two-websocket-tunnels-with-one-connection-id", verdict)
+		bks[0].close()
+		bks[1].close()
+	}
 	// bulk isolation: every host streams megabytes of its own tag at once while some clients read
 	// slowly (their writes stall inside the gateway); every byte a client gets must be its own host's
 	{
